@@ -71,10 +71,13 @@ type vfC09Model struct {
 	gwDel    bool   // current gateway revision is a tombstone
 	bState   int    // bucket: missing / live / tombstone
 	bBody    string
-	extSince int // external writes since the last import opportunity consumed them (statistics)
+	bX       string // bucket: value of the user xattr ("" = none); only with the user-xattr dimension
+	gwX      string // user xattr value the gateway's metadata was last computed from
+	extSince int    // external writes since the last import opportunity consumed them (statistics)
 }
 
-func (m *vfC09Model) dirty() bool {
+// bodyDirty: an external change of the body / tombstone state is pending (its import makes a new revision).
+func (m *vfC09Model) bodyDirty() bool {
 	if m.known {
 		switch m.bState {
 		case vfC09Live:
@@ -87,16 +90,26 @@ func (m *vfC09Model) dirty() bool {
 	return m.bState == vfC09Live
 }
 
+// xattrDirty: only the user xattr of a live, known document was changed externally (its import recomputes
+// the metadata of the SAME revision).
+func (m *vfC09Model) xattrDirty() bool {
+	return m.known && m.bState == vfC09Live && !m.gwDel && m.bX != m.gwX
+}
+
+func (m *vfC09Model) dirty() bool { return m.bodyDirty() || m.xattrDirty() }
+
 func (m *vfC09Model) extSet(body string) {
 	if m.bState == vfC09Tomb {
 		// re-creating a deleted document drops the tombstone's system xattrs (bucket semantics): the
 		// gateway's history of the document is gone and restarts with the next import
 		m.known, m.gen, m.curRev, m.revCount, m.gwBody, m.gwDel = false, 0, "", 0, "", false
+		m.bX, m.gwX = "", ""
 	}
 	m.bState, m.bBody = vfC09Live, body
 }
 
-func (m *vfC09Model) extDel() { m.bState, m.bBody = vfC09Tomb, "" }
+// extDel: a delete removes the body and the user xattrs, the system xattrs stay
+func (m *vfC09Model) extDel() { m.bState, m.bBody, m.bX = vfC09Tomb, "", "" }
 
 func (m *vfC09Model) newRevision() {
 	if m.known {
@@ -107,53 +120,77 @@ func (m *vfC09Model) newRevision() {
 	m.revCount++
 }
 
-func (m *vfC09Model) applyImport() {
+// applyImport: body change => new revision; user-xattr-only change => same revision, metadata recomputed.
+func (m *vfC09Model) applyImport() (newRevision bool) {
+	if !m.bodyDirty() {
+		m.gwX = m.bX
+		return false
+	}
+	defer func() { m.gwX = m.bX }()
 	m.newRevision()
+	newRevision = true
 	if m.bState == vfC09Live {
 		m.gwBody, m.gwDel = m.bBody, false
 	} else {
 		m.gwBody, m.gwDel = "", true
 	}
+	return newRevision
 }
 
 func (m *vfC09Model) applyOwn(body string, del bool) {
 	m.newRevision()
 	if del {
 		m.bState, m.bBody, m.gwBody, m.gwDel = vfC09Tomb, "", "", true
+		m.bX, m.gwX = "", "" // the tombstone write drops user xattrs
 	} else {
+		if m.bState != vfC09Live {
+			m.bX = "" // re-creating a deleted document starts without user xattrs
+		}
+		m.gwX = m.bX
 		m.bState, m.bBody, m.gwBody, m.gwDel = vfC09Live, body, body, false
 	}
 }
 
 func (m *vfC09Model) String() string {
 	b := []string{"missing", "live", "tomb"}[m.bState]
-	return fmt.Sprintf("{known=%v gen=%d rev=%s revs=%d seq=%d gw=%q gwDel=%v bucket=%s %q dirty=%v}", m.known, m.gen, m.curRev, m.revCount, m.seq, m.gwBody, m.gwDel, b, m.bBody, m.dirty())
+	return fmt.Sprintf("{known=%v gen=%d rev=%s revs=%d seq=%d gw=%q gwDel=%v gwXattr=%q bucket=%s %q xattr=%q dirty=%v}", m.known, m.gen, m.curRev, m.revCount, m.seq, m.gwBody, m.gwDel, m.gwX, b, m.bBody, m.bX, m.dirty())
 }
 
 // vfC09Win is an action that lands inside a gateway operation's read -> CAS-write window.
 type vfC09Win struct {
-	kind string // extSet | extDel | deliver | read
-	body int
-	pick int // deliver: 0 = newest event, n = n-th newest
-	at   int // before the at-th CAS write of the document issued by the enclosing operation
+	kind    string // extSet | extDel | extXattr | extBoth | deliver | read
+	body    int
+	x       int // user xattr value of extXattr / extBoth
+	pick    int // deliver: 0 = newest event, n = n-th newest
+	at      int // before the at-th marked storage operation (read or write, any key) of the enclosing action
+	atWrite int // scripted reproductions: before the n-th CAS write of the document instead
 }
 
 func (w *vfC09Win) String() string {
 	if w == nil {
 		return ""
 	}
+	at := fmt.Sprintf("@op%d", w.at)
+	if w.atWrite > 0 {
+		at = fmt.Sprintf("@write%d", w.atWrite)
+	}
 	switch w.kind {
 	case "extSet":
-		return fmt.Sprintf("[@write%d: extSet(x=%d)]", w.at, w.body)
+		return fmt.Sprintf("[%s: extSet(x=%d)]", at, w.body)
+	case "extXattr":
+		return fmt.Sprintf("[%s: extXattr(u=%d)]", at, w.x)
+	case "extBoth":
+		return fmt.Sprintf("[%s: extBoth(x=%d,u=%d)]", at, w.body, w.x)
 	case "deliver":
-		return fmt.Sprintf("[@write%d: deliver(-%d)]", w.at, w.pick)
+		return fmt.Sprintf("[%s: deliver(-%d)]", at, w.pick)
 	}
-	return fmt.Sprintf("[@write%d: %s]", w.at, w.kind)
+	return fmt.Sprintf("[%s: %s]", at, w.kind)
 }
 
 type vfC09Lin struct {
-	kind  string // extSet | extDel | commit
+	kind  string // extSet | extDel | extXattr | extBoth | commit
 	body  string
+	x     string
 	label string
 	typ   vs.OpType
 	own   bool
@@ -188,6 +225,8 @@ type vfC09Case struct {
 	avoid   bool // vfC09SigExtDel is listed as open
 	avoidB  bool // vfC09SigDelExtUpd is listed as open
 	avoidC  bool // vfC09SigDelInWindow is listed as open
+	uxk     bool // user-xattr dimension: the database has a UserXattrKey
+	topKind string
 	classes map[string]bool
 	nontriv bool
 
@@ -307,8 +346,34 @@ func (c *vfC09Case) pickEvent(key string, pick int) (ev sgbucket.FeedEvent, ok b
 
 // extWrite performs an external (SDK-style) write on the raw collection. It returns the linearisation
 // entry, or ok=false when the write is not applicable (delete of something that is not live).
-func (c *vfC09Case) extWrite(key, kind string, body int) (lin vfC09Lin, ok bool) {
+func vfC09X(n int) string { return `"u` + strconv.Itoa(n) + `"` }
+
+const vfC09UserXattrKey = "uxk"
+
+func (c *vfC09Case) extWrite(key, kind string, body int, x ...int) (lin vfC09Lin, ok bool) {
+	xv := 0
+	if len(x) > 0 {
+		xv = x[0]
+	}
 	switch kind {
+	case "extXattr", "extBoth":
+		// one SDK mutation that changes the user xattr (and, for extBoth, the body too) of a live document
+		o, err := c.observe(key)
+		if err != nil || o.body == nil {
+			return lin, false
+		}
+		var werr error
+		if kind == "extXattr" {
+			_, werr = c.raw.SetXattrs(c.env.Ctx, key, map[string][]byte{vfC09UserXattrKey: []byte(vfC09X(xv))})
+		} else {
+			_, werr = c.raw.WriteWithXattrs(c.env.Ctx, key, 0, o.cas, []byte(vfC09Body(body)), map[string][]byte{vfC09UserXattrKey: []byte(vfC09X(xv))}, nil, nil)
+		}
+		if werr != nil {
+			c.inconcl = fmt.Sprintf("external %s failed: %v", kind, werr)
+			return lin, false
+		}
+		c.syncFeed(key)
+		return vfC09Lin{kind: kind, body: vfC09Body(body), x: vfC09X(xv)}, true
 	case "extSet":
 		if err := vfC09ExternalSet(c.env.Ctx, c.raw, key, vfC09Body(body)); err != nil {
 			c.inconcl = fmt.Sprintf("external set failed: %v", err)
@@ -345,17 +410,35 @@ func vfC09ExternalSet(ctx context.Context, raw *rosmar.Collection, key, body str
 }
 
 // hook runs inside the enclosing gateway operation's read -> CAS-write window.
-func (c *vfC09Case) hook() {
+func (c *vfC09Case) hookWrite() {
 	c.writes++
-	if c.win == nil || c.fired || c.writes != c.win.at {
+	if c.win == nil || c.fired || c.writes != c.win.atWrite {
+		return
+	}
+	c.hook()
+}
+
+func (c *vfC09Case) hook() {
+	if c.win == nil || c.fired {
 		return
 	}
 	c.fired = true
 	c.firedIndex = c.w.MarkedCount()
 	key := c.winKey
+	if c.win.kind == "extDel" && c.topKind == "read" && c.avoidC && c.win.atWrite == 0 {
+		// known finding: an external delete that lands after the on-demand import's body read. Before the
+		// reads of GetDocumentWithRaw it is harmless (the reload sees the tombstone).
+		for _, op := range c.w.MarkedTrace() {
+			if op.Type != vs.OpGetWithXattrs || op.Key != key {
+				c.rec.Excluded(vfC09SigDelInWindow)
+				c.winNote = "none(extDel after the import's body read: known finding)"
+				return
+			}
+		}
+	}
 	switch c.win.kind {
-	case "extSet", "extDel":
-		if lin, ok := c.extWrite(key, c.win.kind, c.win.body); ok {
+	case "extSet", "extDel", "extXattr", "extBoth":
+		if lin, ok := c.extWrite(key, c.win.kind, c.win.body, c.win.x); ok {
 			c.winLin = append(c.winLin, lin)
 			c.winNote = c.win.kind
 		} else {
@@ -389,14 +472,19 @@ type vfC09Result struct {
 func (c *vfC09Case) gateway(kind string, d int, win *vfC09Win, desc string, exec func(ctx context.Context) vfC09Result) {
 	m := c.docs[d]
 	pre := *m
-	c.win, c.winKey, c.writes, c.fired, c.firedIndex, c.winLin, c.winNote = win, m.key, 0, false, 0, nil, ""
-	var rules []vs.Rule
-	for _, typ := range []vs.OpType{vs.OpWriteWithXattrs, vs.OpWriteTombstoneWithXattrs, vs.OpWriteResurrectionWithXattrs} {
-		for n := 1; n <= 6; n++ {
-			rules = append(rules, vs.Rule{Type: typ, Key: m.key, Label: "top", Nth: n, Fault: vs.Fault{Hook: c.hook}})
+	c.win, c.winKey, c.writes, c.fired, c.firedIndex, c.winLin, c.winNote, c.topKind = win, m.key, 0, false, 0, nil, "", kind
+	plan := &vs.Plan{}
+	if win != nil && win.atWrite > 0 {
+		for _, typ := range []vs.OpType{vs.OpWriteWithXattrs, vs.OpWriteTombstoneWithXattrs, vs.OpWriteResurrectionWithXattrs} {
+			for n := 1; n <= 6; n++ {
+				plan.Rules = append(plan.Rules, vs.Rule{Type: typ, Key: m.key, Label: "top", Nth: n, Fault: vs.Fault{Hook: c.hookWrite}})
+			}
 		}
+	} else if win != nil {
+		// before the k-th marked storage operation of the action, whatever it is (read, counter, write)
+		plan.At = map[int]vs.Fault{win.at: {Hook: c.hook}}
 	}
-	c.w.Arm(&vs.Plan{Rules: rules})
+	c.w.Arm(plan)
 	var res vfC09Result
 	var tb kit.TB = c.t
 	if c.rt != nil {
@@ -444,6 +532,9 @@ func (c *vfC09Case) gateway(kind string, d int, win *vfC09Win, desc string, exec
 			nested = append(nested, vfC09Lin{kind: "commit", label: "nested", typ: op.Type, meta: true})
 		}
 	}
+	// bodyReadAt: position (in lin) of the action's latest read of the document that carried the body. A
+	// feed delivery starts from the event's snapshot, i.e. from before the action.
+	bodyReadAt := 0
 	for _, op := range trace {
 		if op.Label != "top" {
 			continue
@@ -452,10 +543,20 @@ func (c *vfC09Case) gateway(kind string, d int, win *vfC09Win, desc string, exec
 			lin = append(lin, c.winLin...)
 			lin = append(lin, nested...)
 		}
+		if op.Key == m.key && (op.Type == vs.OpGetWithXattrs || op.Type == vs.OpGetRaw || op.Type == vs.OpGet) {
+			bodyReadAt = len(lin)
+		}
 		if op.Key != m.key || !op.Applied {
 			continue
 		}
 		if vfC09IsWrite(op.Type) {
+			// a CAS-guarded write must be built from the state it guards: no external write between the
+			// action's last body read and a write that was applied
+			for _, e := range lin[bodyReadAt:] {
+				if strings.HasPrefix(e.kind, "ext") {
+					c.fail("%s: a gateway write of the document (%s) was applied although the other application wrote (%s) after the action last read the body - the write is built from a superseded body, and the document now counts as imported; model before %s; trace %s", opStr, op.Type, e.kind, pre.String(), vs.Render(trace))
+				}
+			}
 			lin = append(lin, vfC09Lin{kind: "commit", label: "top", typ: op.Type, meta: kind == "rewrite"})
 			lastOwn = len(lin) - 1
 		} else if op.Type == vs.OpUpdateXattrs {
@@ -471,9 +572,16 @@ func (c *vfC09Case) gateway(kind string, d int, win *vfC09Win, desc string, exec
 
 	// replay
 	newRevs := 0
+	xattrImports := 0
 	restarted := false
 	for _, e := range lin {
 		switch e.kind {
+		case "extXattr":
+			m.bX = e.x
+			m.extSince++
+		case "extBoth":
+			m.bBody, m.bX = e.body, e.x
+			m.extSince++
 		case "extSet":
 			if m.bState == vfC09Tomb && m.known {
 				restarted = true
@@ -486,6 +594,9 @@ func (c *vfC09Case) gateway(kind string, d int, win *vfC09Win, desc string, exec
 			m.extSince++
 		case "commit":
 			if e.meta {
+				if kind == "rewrite" && e.label == "top" && vfC09IsWrite(e.typ) {
+					m.gwX = m.bX // resync recomputes the metadata from the current user xattr
+				}
 				continue
 			}
 			if e.own {
@@ -499,9 +610,13 @@ func (c *vfC09Case) gateway(kind string, d int, win *vfC09Win, desc string, exec
 			if !m.dirty() {
 				c.fail("%s: an import was committed (%s by %s) although no external change was pending - a gateway write was taken for an external one, or an external write was imported twice; model at that point %s", opStr, e.typ, e.label, m.String())
 			}
-			m.applyImport()
+			if m.applyImport() {
+				newRevs++
+			} else {
+				xattrImports++
+				c.classes["user-xattr-only-import"] = true
+			}
 			m.extSince = 0
-			newRevs++
 			if e.label == "nested" || (c.fired && (c.win.kind == "deliver" || c.win.kind == "read")) {
 				// both import paths ran for the same external write (one of them must have backed off)
 				c.classes["feed-and-on-demand-race"] = true
@@ -514,7 +629,20 @@ func (c *vfC09Case) gateway(kind string, d int, win *vfC09Win, desc string, exec
 	if err != nil {
 		c.harnessErr("observe: %v", err)
 	}
-	c.checkObserved(opStr, &pre, m, o, newRevs, restarted)
+	if xattrImports > 0 && c.fired && o.hasSync && m.known {
+		// Observation, not asserted: when an on-demand import is re-run after a CAS failure, importDoc rebuilds
+		// its view of the document without the user xattr (existingDoc = {Cas}), so a user-xattr-only change is
+		// then imported as a NEW revision with the unchanged body. The statement says nothing about user
+		// xattrs; in a disturbed action either outcome is accepted and the model follows the bucket.
+		if gen, _ := ParseRevID(c.env.Ctx, o.sd.GetRevTreeID()); gen > m.gen && gen-m.gen <= xattrImports {
+			extra := gen - m.gen
+			m.gen += extra
+			m.revCount += extra
+			newRevs += extra
+			c.classes["user-xattr-only-import-made-a-revision-after-cas-retry"] = true
+		}
+	}
+	c.checkObserved(opStr, &pre, m, o, newRevs, restarted, xattrImports)
 
 	// completeness: an undisturbed import opportunity leaves nothing pending
 	undisturbed := win == nil || !c.fired || strings.HasPrefix(c.winNote, "none")
@@ -554,7 +682,7 @@ func (c *vfC09Case) gateway(kind string, d int, win *vfC09Win, desc string, exec
 	}
 	if c.fired && !strings.HasPrefix(c.winNote, "none") {
 		c.classes["window:"+c.win.kind+"-in-"+kind] = true
-		if (c.win.kind == "extSet" || c.win.kind == "extDel") && (kind == "put" || kind == "del") {
+		if strings.HasPrefix(c.win.kind, "ext") && (kind == "put" || kind == "del") {
 			c.nontriv = true
 			c.classes["nontrivial:external-write-in-gateway-write-window"] = true
 		}
@@ -565,7 +693,7 @@ func (c *vfC09Case) gateway(kind string, d int, win *vfC09Win, desc string, exec
 }
 
 // checkObserved compares the raw bucket document with the model after an operation.
-func (c *vfC09Case) checkObserved(opStr string, pre, m *vfC09Model, o vfC09Obs, newRevs int, restarted bool) {
+func (c *vfC09Case) checkObserved(opStr string, pre, m *vfC09Model, o vfC09Obs, newRevs int, restarted bool, xattrImports int) {
 	switch m.bState {
 	case vfC09Live:
 		if o.body == nil {
@@ -629,7 +757,13 @@ func (c *vfC09Case) checkObserved(opStr string, pre, m *vfC09Model, o vfC09Obs, 
 		if cur != pre.curRev {
 			c.fail("%s: no revision was created but the current revision changed from %s to %s", opStr, pre.curRev, cur)
 		}
-		if o.sd.Sequence != pre.seq {
+		if xattrImports > 0 {
+			// a user-xattr import recomputes channels of the same revision and re-announces it: a higher
+			// sequence is allowed, a new revision is not
+			if o.sd.Sequence < pre.seq {
+				c.fail("%s: user-xattr import moved the sequence backwards from %d to %d", opStr, pre.seq, o.sd.Sequence)
+			}
+		} else if o.sd.Sequence != pre.seq {
 			c.fail("%s: no revision was created but the sequence changed from %d to %d", opStr, pre.seq, o.sd.Sequence)
 		}
 	}
@@ -645,8 +779,16 @@ func (c *vfC09Case) drawWin(rt *rapid.T, kinds []string) *vfC09Win {
 	if rapid.IntRange(0, 9).Draw(rt, "window") >= 6 {
 		return nil
 	}
-	w := &vfC09Win{kind: rapid.SampledFrom(kinds).Draw(rt, "winKind"), at: rapid.SampledFrom([]int{1, 1, 1, 2, 2, 3}).Draw(rt, "winAt")}
+	if c.uxk {
+		kinds = append(append([]string{}, kinds...), "extXattr", "extBoth", "extBoth")
+	}
+	w := &vfC09Win{kind: rapid.SampledFrom(kinds).Draw(rt, "winKind"), at: rapid.SampledFrom([]int{1, 2, 2, 3, 3, 4, 4, 5, 6, 7, 8, 10, 12}).Draw(rt, "winAt")}
 	switch w.kind {
+	case "extXattr":
+		w.x = rapid.IntRange(0, 2).Draw(rt, "winXattr")
+	case "extBoth":
+		w.body = rapid.IntRange(0, 2).Draw(rt, "winBody")
+		w.x = rapid.IntRange(0, 2).Draw(rt, "winXattr")
 	case "extSet":
 		w.body = rapid.IntRange(0, 2).Draw(rt, "winBody")
 	case "deliver":
@@ -662,9 +804,15 @@ func (c *vfC09Case) actExt(rt *rapid.T) {
 	if m.bState == vfC09Live && rapid.IntRange(0, 3).Draw(rt, "delete") == 0 {
 		kind = "extDel"
 	}
+	xv := 0
+	if c.uxk && m.bState == vfC09Live && kind == "extSet" {
+		// one external mutation may change the body only, the user xattr only, or both
+		kind = rapid.SampledFrom([]string{"extSet", "extXattr", "extBoth", "extBoth"}).Draw(rt, "extKind")
+		xv = rapid.IntRange(0, 2).Draw(rt, "xattr")
+	}
 	body := rapid.IntRange(0, 2).Draw(rt, "body")
 	pre := *m
-	lin, ok := c.extWrite(m.key, kind, body)
+	lin, ok := c.extWrite(m.key, kind, body, xv)
 	if c.inconcl != "" {
 		c.skipInconclusive(c.inconcl)
 	}
@@ -672,7 +820,20 @@ func (c *vfC09Case) actExt(rt *rapid.T) {
 		c.harnessErr("external %s on %s not applicable although the model says %s", kind, m.key, m.String())
 	}
 	restarted := false
-	if lin.kind == "extSet" {
+	if lin.kind == "extXattr" {
+		m.bX = lin.x
+		c.ops = append(c.ops, fmt.Sprintf("extXattr(d%d,u=%d)", d, xv))
+		if m.known && !m.bodyDirty() && m.xattrDirty() {
+			c.classes["external-user-xattr-only-change"] = true
+		}
+	} else if lin.kind == "extBoth" {
+		wasKnownClean := m.known && !m.dirty()
+		m.bBody, m.bX = lin.body, lin.x
+		c.ops = append(c.ops, fmt.Sprintf("extBoth(d%d,x=%d,u=%d)", d, body, xv))
+		if wasKnownClean && m.bodyDirty() && m.xattrDirty() {
+			c.classes["external-body-and-user-xattr-change"] = true
+		}
+	} else if lin.kind == "extSet" {
 		restarted = m.bState == vfC09Tomb && m.known
 		m.extSet(lin.body)
 		c.ops = append(c.ops, fmt.Sprintf("extSet(d%d,x=%d)", d, body))
@@ -898,13 +1059,18 @@ func vfC09NewListener(ctx context.Context, env *vfEnv, label string) *importList
 	return il
 }
 
-func vfC09Open(t *testing.T, autoImport bool) (*vfEnv, *vs.Bucket, *vs.DataStore, error) {
+func vfC09Open(t *testing.T, autoImport bool, userXattr bool) (*vfEnv, *vs.Bucket, *vs.DataStore, error) {
 	var w *vs.Bucket
-	env, err := vfOpen(t, vfDBConfig{AutoImport: autoImport, WrapBucket: func(b base.Bucket) base.Bucket {
+	cfg := vfDBConfig{AutoImport: autoImport, WrapBucket: func(b base.Bucket) base.Bucket {
 		w = vs.Wrap(b)
 		w.SetTraceUnmarked(false)
 		return w
-	}})
+	}}
+	if userXattr {
+		// same db-package code as in EE; the REST layer gates this option to EE builds
+		cfg.Mutate = func(o *DatabaseContextOptions) { o.UserXattrKey = vfC09UserXattrKey }
+	}
+	env, err := vfOpen(t, cfg)
 	if err != nil {
 		return nil, nil, nil, err
 	}
@@ -932,12 +1098,12 @@ func vfC09Subscribe(env *vfEnv, w *vs.Bucket, onEvent func(ev sgbucket.FeedEvent
 }
 
 // vfC09Setup opens the database (auto-import off), the two listeners and the harness's feed subscription.
-func vfC09Setup(t *testing.T, rec *kit.Rec, rt *rapid.T, nDocs int) (c *vfC09Case, cleanup func(), err error) {
-	env, w, ds, err := vfC09Open(t, false)
+func vfC09Setup(t *testing.T, rec *kit.Rec, rt *rapid.T, nDocs int, userXattr bool) (c *vfC09Case, cleanup func(), err error) {
+	env, w, ds, err := vfC09Open(t, false, userXattr)
 	if err != nil {
 		return nil, nil, err
 	}
-	c = &vfC09Case{t: t, rt: rt, rec: rec, env: env, w: w, ds: ds, raw: ds.Raw(), events: map[string][]sgbucket.FeedEvent{}, classes: map[string]bool{}}
+	c = &vfC09Case{t: t, rt: rt, rec: rec, env: env, w: w, ds: ds, raw: ds.Raw(), events: map[string][]sgbucket.FeedEvent{}, classes: map[string]bool{}, uxk: userXattr}
 	c.avoid = kit.Known("C09", vfC09SigExtDel)
 	c.avoidB = kit.Known("C09", vfC09SigDelExtUpd)
 	c.avoidC = kit.Known("C09", vfC09SigDelInWindow)
@@ -972,14 +1138,18 @@ func vfC09Setup(t *testing.T, rec *kit.Rec, rt *rapid.T, nDocs int) (c *vfC09Cas
 
 func vfC09Run(t *testing.T, rec *kit.Rec, rt *rapid.T) {
 	nDocs := rapid.IntRange(1, 2).Draw(rt, "docs")
-	c, cleanup, err := vfC09Setup(t, rec, rt, nDocs)
+	uxk := rapid.IntRange(0, 2).Draw(rt, "userXattrKey") == 0
+	c, cleanup, err := vfC09Setup(t, rec, rt, nDocs, uxk)
 	if err != nil {
 		rec.Inconclusive()
 		kit.InconclusiveLine("C09", "cannot open database / feed: %v", err)
 		rt.Skip("no database")
 	}
 	defer cleanup()
-	c.ops = append(c.ops, fmt.Sprintf("open(docs=%d)", nDocs))
+	c.ops = append(c.ops, fmt.Sprintf("open(docs=%d,userXattrKey=%v)", nDocs, uxk))
+	if uxk {
+		c.classes["user-xattr-dimension"] = true
+	}
 	rt.Repeat(map[string]func(*rapid.T){
 		"ext":      c.actExt,
 		"ext2":     c.actExt,
@@ -1062,7 +1232,7 @@ var vfC09Repros = []vfC09Repro{
 		c.scriptExt(0, "extSet", 1)
 		// GET x imports {x:1}; immediately before the import's CAS write the other application deletes x
 		m := c.docs[0]
-		c.gateway("read", 0, &vfC09Win{kind: "extDel", at: 1}, "gwRead(d0)", func(ctx context.Context) vfC09Result {
+		c.gateway("read", 0, &vfC09Win{kind: "extDel", atWrite: 1}, "gwRead(d0)", func(ctx context.Context) vfC09Result {
 			doc, err := c.env.Coll.GetDocument(ctx, m.key, DocUnmarshalAll)
 			return vfC09Result{err: err, readDoc: doc}
 		})
@@ -1079,7 +1249,7 @@ func TestVerif_C09_Known(t *testing.T) {
 	defer rec.Flush()
 	defer SuspendSequenceBatching()()
 	for _, rp := range vfC09Repros {
-		c, cleanup, err := vfC09Setup(t, rec, nil, 1)
+		c, cleanup, err := vfC09Setup(t, rec, nil, 1, false)
 		if err != nil {
 			rec.Inconclusive()
 			kit.InconclusiveLine("C09", "cannot open database / feed: %v", err)
@@ -1144,7 +1314,7 @@ func TestVerif_C09_AutoImport(t *testing.T) {
 			parts = append(parts, fmt.Sprintf("%s(d%d,x=%d)", st.kind, st.doc, st.body))
 		}
 		render := fmt.Sprintf("autoimport docs=%d: %s", nDocs, strings.Join(parts, "; "))
-		env, w, ds, err := vfC09Open(t, true)
+		env, w, ds, err := vfC09Open(t, true, false)
 		if err != nil {
 			rec.Inconclusive()
 			kit.InconclusiveLine("C09", "cannot open database: %v", err)
